@@ -165,10 +165,31 @@ def interaction(S):
 
 def run_real(case, script=None):
     """Run the REAL Snowflake; returns the observation + everything the model needs."""
-    S = make_flake(case)
-    px = Proxy(S._rng, "script" if script is not None else "record", script)
-    S._rng = px
-    S.run()
+    import contextlib
+    import io
+
+    mode = "script" if script is not None else "record"
+    with contextlib.redirect_stdout(io.StringIO()):   # the code prints warnings
+        S = make_flake(case)
+        # run() restarts its generator (`np.random.default_rng(self.seed)`): the proxy is
+        # installed by patching the factory in THIS process for the duration of the run;
+        # older trees that keep `self._rng` get the proxy assigned directly.
+        made = []
+        orig = np.random.default_rng
+
+        def factory(*a, **kw):
+            q = Proxy(orig(*a, **kw), mode, script)
+            made.append(q)
+            return q
+
+        assigned = Proxy(S._rng, mode, script)
+        S._rng = assigned
+        np.random.default_rng = factory
+        try:
+            S.run()
+        finally:
+            np.random.default_rng = orig
+        px = S._rng if isinstance(S._rng, Proxy) else (made[-1] if made else assigned)
     n = S.N_vials_total
     st = S.stats
     nbrs, ext, _ = interaction(S)
@@ -410,6 +431,48 @@ def compare_run(case, impl, model, tie=1e-9):
 # ---------------------------------------------------------------------------
 # INDEPENDENT statement of the published model (development.rst, Deck et al. 2022)
 # ---------------------------------------------------------------------------
+PRIMARY_KEYS = {"T_eq": ("solution", "T_eq"), "b": ("kinetics", "b"), "rho_l": ("solution", "rho_l"),
+                "height": ("vial", "geometry", "height"), "length": ("vial", "geometry", "length"),
+                "width": ("vial", "geometry", "width"), "cp_s": ("solution", "cp_s"),
+                "solid_fraction": ("solution", "solid_fraction"), "cp_w": ("water", "cp_w"),
+                "cp_i": ("water", "cp_i"), "k_f": ("solution", "k_f"), "M_s": ("solution", "M_s"),
+                "Dh": ("water", "Dh")}
+
+
+def layered_config(case_config=None):
+    import yaml
+
+    src = core.REPO / "src" / "ethz_snow" / "config" / "snowConfig_default.yaml"
+    with open(src) as f:
+        cfg = yaml.safe_load(f)
+
+    def upd(d, u):
+        for k, v in u.items():
+            if isinstance(v, dict) and isinstance(d.get(k), dict):
+                upd(d[k], v)
+            else:
+                d[k] = v
+
+    if case_config:
+        upd(cfg, case_config)
+    return cfg
+
+
+def derive_model(drv, case_config=None):
+    """derived constants by the Lean model `deriveConsts` from the primary YAML values"""
+    cfg = layered_config(case_config)
+    req = {"op": "flakeDerive"}
+    for k, path in PRIMARY_KEYS.items():
+        d = cfg
+        for q in path:
+            d = d[q]
+        req[k] = f2b(float(d))
+    r = drv.call(req)
+    if "error" in r:
+        raise RuntimeError(r["error"])
+    return {k: b2f(v) for k, v in r["consts"].items()}
+
+
 def physical(case_config=None):
     """Primary physical parameters straight from the YAML layers (default + partial),
     NOT from `calculateDerived`."""
